@@ -119,7 +119,7 @@ pub fn check(g: &G, ctx: &mut Ctx) -> Result<(), Failure> {
 }
 
 pub fn spec(tier: Tier) -> Spec<G> {
-    Spec { id: "C03", rule: RULE, tape_len: 160, cases: tier.pick(40_000, 600_000), gen: gen_case, check, max_shrink_iters: 4000, shards: 16 }
+    Spec { id: "C03", rule: RULE, tape_len: 160, cases: tier.pick(120_000, 1_200_000), gen: gen_case, check, max_shrink_iters: 4000, shards: 16 }
 }
 
 pub fn run(tier: Tier, seed: u64) -> i32 {
